@@ -148,7 +148,7 @@ Definition parsers_ok (isz : N) (fos : list fobs) : bool :=
                       end) (fo_oracle fo)) fos.
 
 Definition check_case (int_size : N) (fos : list fobs) (vec : list token) (cfgfile : option (list N)) (b64set : bool)
-    (ok : bool) (rest : list token) (help : option bool) : verdict :=
+    (ok : bool) (rest : list token) (help : option bool) (callno : N) (unchanged : bool) : verdict :=
   let fields := map fo_flag fos in
   let w := world_of int_size fos cfgfile b64set in
   let orc := w_set w in
@@ -181,6 +181,19 @@ Definition check_case (int_size : N) (fos : list fobs) (vec : list token) (cfgfi
          && match set_T orc (fo_kind fo) d with SOk v => value_matches v (fo_init fo) | SErr => false end
       then [] else [fo_hname fo]) fos in
   let skipped := N.of_nat (length (filter (fun fo => match fo_final fo with None => true | Some _ => false end) fos)) in
+  if negb (callno =? 0) then
+    (* a later call on the same FlagSet: the model (C09_parse_once) refuses it and leaves the fields alone;
+       the specification still applies if the implementation returns nil: the winners of THIS call's sources *)
+    match parse_call w {| ob_parsed := true; ob_fs := builtins ++ fields; ob_st := None |} vec with
+    | (_, PAlready) =>
+        {| v_spec_fail := spec_fail; v_env_fail := env_fail; v_tag_fail := tag_fail; v_skipped := skipped;
+           v_model_fail := if unchanged then [] else map (fun fo => fname (fo_flag fo)) fos;
+           v_outcome := negb ok; v_rest := true; v_parsers := parsers_ok int_size fos |}
+    | _ =>
+        {| v_spec_fail := spec_fail; v_env_fail := env_fail; v_tag_fail := tag_fail; v_skipped := skipped;
+           v_model_fail := []; v_outcome := false; v_rest := true; v_parsers := true |}
+    end
+  else
   match run w fields vec with
   | RParse (POk s rest') =>
       {| v_spec_fail := spec_fail; v_env_fail := env_fail; v_tag_fail := tag_fail; v_skipped := skipped;
